@@ -282,7 +282,7 @@ class CompRunner:
                         pass
 
     def run(self, inputs, tag="h", assumptions=(), do_partials=True, max_paths=execute.MAX_PATHS, extra=None,
-            arbitrary_state=True, sequence=None):
+            arbitrary_state=True, sequence=None, second_linearisation=True):
         """Explore compute (+ compute_partials / apply_nonlinear + linearize). Returns list of Path with
         result = dict(outputs, jac, gattrs, inputs)."""
         comp = self.comp
@@ -322,6 +322,14 @@ class CompRunner:
                 res["outputs"] = {n: symify(outs[n]) for n in self.out_names}
                 res["inputs_after"] = {n: symify(ins[n]) for n in self.in_names}
                 res["jac"] = {k: symify(v) for k, v in jac.items()}
+                if do_partials and arbitrary_state and second_linearisation:
+                    # the framework linearises again at the same point without running the component in between
+                    # (compute_totals twice, check_totals after compute_totals): same storage, same inputs
+                    if self.implicit:
+                        comp.linearize(I, O, J)
+                    elif hasattr(comp, "compute_partials"):
+                        comp.compute_partials(I, J)
+                    res["jac_again"] = {k: symify(v) for k, v in jac.items()}
                 res["pre_outs"] = pre_outs
                 res["pre_jac"] = pre_jac
                 res["gattrs"] = gattrs
